@@ -54,6 +54,7 @@ var checks = map[string][]HarnessSpec{
 	"C11": {
 		{Name: "HarnessC11Reduce", Pkg: "bql", Quick: map[string]int{"ROWS": 3, "KINDS": 0}, Thorough: map[string]int{"ROWS": 4, "KINDS": 0}},
 		{Name: "HarnessPipeline", Pkg: "bql", Quick: map[string]int{"PROP": 11, "K": 2}, Thorough: map[string]int{"PROP": 11, "K": 3}, Note: "GROUP BY end to end through lexer, parser, planner and memory driver"},
+		{Name: "HarnessPipeline", Pkg: "bql", Quick: map[string]int{"PROP": 110, "K": 3}, Thorough: map[string]int{"PROP": 110, "K": 4}, Note: "GROUP BY a time anchor, three anchors one nanosecond apart"},
 		{Name: "HarnessC11Reduce", Pkg: "bql", Quick: map[string]int{"ROWS": 3, "KINDS": 2}, Thorough: map[string]int{"ROWS": 4, "KINDS": 2}, Note: "string, text-literal and node cells mixed in the grouping column"},
 	},
 	"C12": {
@@ -83,6 +84,7 @@ var checks = map[string][]HarnessSpec{
 		{Name: "HarnessC18Semantic", Pkg: "bql", Quick: map[string]int{"L": 5}, Thorough: map[string]int{"L": 8}},
 		{Name: "HarnessC18NoState", Pkg: "bql", Quick: map[string]int{"L": 2}, Thorough: map[string]int{"L": 4}},
 		{Name: "HarnessC18NoStatePairs", Pkg: "bql"},
+		{Name: "HarnessC18NoStateWitness", Pkg: "bql", Note: "statement 1 = a witness sentence for every alternative of every rule"},
 	},
 	"C19": {
 		{Name: "HarnessC19OptionPairs", Pkg: "store", Note: "all twelve read methods, two reads with independently chosen options, optional write in between"},
@@ -94,6 +96,7 @@ var checks = map[string][]HarnessSpec{
 		{Name: "HarnessC01Triples", Pkg: "store", Quick: map[string]int{"PRE": 1, "B": 1, "RB": 2, "TEMPORAL": 0}, Thorough: map[string]int{"PRE": 2, "B": 1, "RB": 2, "TEMPORAL": 0}},
 		{Name: "HarnessC01Triples", Pkg: "store", Quick: map[string]int{"PRE": 1, "B": 1, "TEMPORAL": 1}, Thorough: map[string]int{"PRE": 1, "B": 1, "TEMPORAL": 1}, OnlyThorough: true, Note: "immutable and temporal predicates sharing identifiers; same instant in two zones"},
 		{Name: "HarnessC01Recreate", Pkg: "store"},
+		{Name: "HarnessC01KindBatch", Pkg: "store", Quick: map[string]int{"ANCHORS": 3}, Thorough: map[string]int{"ANCHORS": 4}, Note: "triples differing only in predicate kind / instant, added and removed in one batch"},
 	},
 	"C02": {
 		{Name: "HarnessC02Lookup", Pkg: "store", Quick: map[string]int{"METHOD": 0, "PRE": 1, "REM": 1, "TEMPORAL": 1, "ANCHORS": 3}, Thorough: map[string]int{"METHOD": 0, "PRE": 2, "REM": 1, "TEMPORAL": 1, "ANCHORS": 3}, Note: "Objects"},
@@ -149,6 +152,7 @@ var checks = map[string][]HarnessSpec{
 		{Name: "HarnessC06LiteralBoolText", Pkg: "leaf"},
 		{Name: "HarnessC06Predicate", Pkg: "leaf", Quick: map[string]int{"L": 2}, Thorough: map[string]int{"L": 3}, PoolDirty: true},
 		{Name: "HarnessC06Triple", Pkg: "leaf", PoolDirty: true},
+		{Name: "HarnessC06Concurrent", Pkg: "leaf", PoolDirty: true, Schedule: true, Race: true, Preempt: 3, Note: "two goroutines sharing the buffer pool, every schedule at Get/Put granularity"},
 	},
 	"C15": {
 		{Name: "HarnessC15Node", Pkg: "leaf", Quick: map[string]int{"N": 4}, Thorough: map[string]int{"N": 6}},
